@@ -11,6 +11,7 @@ type PathOpts struct {
 	AllowCreate bool // may end in 1..3 steps that do not exist yet
 	AllowMulti  bool // splats, multi-key, recursive-descent+predicate selections
 	NoRoot      bool // never address the root itself
+	MultiIdx    bool // may end in a multi-index step that pads: .[5, -2]
 }
 
 type nodeAt struct {
@@ -119,6 +120,22 @@ func RandomPath(r *rand.Rand, doc *ref.V, o PathOpts) ref.PathExpr {
 		}
 	}
 	p := ref.PathExpr{Steps: steps}
+	if o.MultiIdx && n.v.K == ref.Seq && r.IntN(2) == 0 {
+		// .[i, j]: an index at or beyond the end (pads) next to one counted from the end, in either order,
+		// chosen so that the two resolve to different positions
+		ln := len(n.v.A)
+		pad := ln + r.IntN(3)
+		if pad == 0 {
+			pad = 1
+		}
+		j := 2 + r.IntN(pad) // counted from the end of the padded sequence (length pad+1): pad+1-j in 0..pad-1
+		if r.IntN(4) > 0 {
+			p.Steps = append(p.Steps, ref.Step{Kind: "midx", Idxs: []int{pad, -j}})
+		} else if ln > 0 {
+			p.Steps = append(p.Steps, ref.Step{Kind: "midx", Idxs: []int{-(1 + r.IntN(ln)), pad}})
+		}
+		return p
+	}
 	if o.AllowCreate && r.IntN(3) == 0 && (n.v.K == ref.Map || n.v.K == ref.Null || n.v.K == ref.Seq) {
 		// a to-be-created suffix of length 1..3
 		k := 1 + r.IntN(3)
